@@ -260,7 +260,7 @@ func (v *VDR) Read(longFormDID string, _ ...vdrapi.DIDMethodOption) (*docdid.Doc
 		return nil, err
 	}
 
-	documentResolution, err := docdid.ParseDocumentResolution(resolutionResultBytes)
+	documentResolution, err := parseDocumentResolution(resolutionResultBytes)
 	if err != nil {
 		return nil, err
 	}
@@ -270,6 +270,18 @@ func (v *VDR) Read(longFormDID string, _ ...vdrapi.DIDMethodOption) (*docdid.Doc
 		DocumentMetadata: documentResolution.DocumentMetadata,
 		Context:          documentResolution.Context,
 	}, nil
+}
+
+// parseDocumentResolution parses a resolution result with the did-go parser. That parser panics on some malformed
+// key values (e.g. a publicKeyBase58 value containing non-ASCII characters); a panic is reported as an error.
+func parseDocumentResolution(data []byte) (res *docdid.DocResolution, err error) {
+	defer func() {
+		if r := recover(); r != nil {
+			res, err = nil, fmt.Errorf("failed to parse document resolution: %v", r)
+		}
+	}()
+
+	return docdid.ParseDocumentResolution(data)
 }
 
 // Update did doc.
